@@ -118,6 +118,11 @@ func c18Run(xmlText string, script []string, pendingAt func(done map[string]bool
 		o.stuck = "StartAll: " + err.Error()
 		return
 	}
+	if strings.Contains(xmlText, "intermediateCatchEvent") {
+		// the set's watcher registers a catch event when it reads the event's announcement that it listens: give it
+		// time before a script lets a thrower go (open finding C18-wake-lost-before-registration)
+		time.Sleep(150 * time.Millisecond)
+	}
 	wait := func(d time.Duration) int {
 		c, cc := context.WithTimeout(context.Background(), d)
 		defer cc()
@@ -317,8 +322,9 @@ func runC18(env *Env) {
 			}
 		}
 	}
-	c18LoopedCatch(env, rep, 0, 4)
-	c18LoopedCatch(env, rep, 20000, map[bool]int{false: 12, true: 120}[env.Thorough()])
+	c18LoopedCatch(env, rep, 0, 4, true)
+	c18LoopedCatch(env, rep, 20000, map[bool]int{false: 12, true: 120}[env.Thorough()], true)
+	c18LoopedCatch(env, rep, 0, map[bool]int{false: 40, true: 400}[env.Thorough()], false)
 	env.WriteCases(rep, "", "Corr.C18corr", "list nat * list (nat * nat)", items, "c18_mismatches")
 	env.WriteReport(rep)
 }
@@ -418,7 +424,11 @@ func c18Case(ps []c18Proc, flows [][2]string, log []Ev) string {
 // loop (C1 -> B1 -> back to C1 while B1 answers again = true). Each throw wakes the catch event once: B1 is requested
 // after the first throw, and again after the second, however long the delivery of the first takes (process 1 is
 // padded with `pad` tasks no token ever reaches: every event is offered to every node).
-func c18LoopedCatch(env *Env, rep *Report, pad, rounds int) {
+// settled = true: the driver gives the set's watcher 150 ms after the catch event's announcement that it listens
+// before it lets the thrower go on (the watcher registers the catch event when IT reads that announcement);
+// settled = false: the thrower goes on at once -- the throw can then be handled before the registration and is lost
+// (open finding C18-wake-lost-before-registration; a wake-up that is lost there is reported under that key).
+func c18LoopedCatch(env *Env, rep *Report, pad, rounds int, settled bool) {
 	p0 := &Prog{}
 	p0.Node("start", "s0")
 	p0.Node("task", "T0")
@@ -453,7 +463,7 @@ func c18LoopedCatch(env *Env, rep *Report, pad, rounds int) {
 	}
 	xmlText := SetXML([]*Prog{p0, p1}, []bool{true, true}, [][2]string{{"H0", "C1"}, {"H0b", "C1"}}, `<bpmn:message id="m1" name="m1"/>`)
 	for r := 0; r < rounds && !rep.Saturated(); r++ {
-		cs := fmt.Sprintf("two throws at a catch event that sits in a loop, the caught process padded with %d unreached tasks (round %d)", pad, r)
+		cs := fmt.Sprintf("two throws at a catch event that sits in a loop, the caught process padded with %d unreached tasks, thrower released 150 ms after the catch event listens: %v (round %d)", pad, settled, r)
 		env.Current(cs)
 		defs, err := ParseDefs(xmlText)
 		must(err)
@@ -476,13 +486,16 @@ func c18LoopedCatch(env *Env, rep *Report, pad, rounds int) {
 		if !col.WaitUntil(tmoStep, func(l []Ev) bool { return countEv(l, "listening", "C1") >= 1 }) {
 			problem = "the catch event never listened"
 		}
+		if settled {
+			time.Sleep(150 * time.Millisecond)
+		}
 		step("T0", "T0 was not requested")
 		step("B1", "first throw: the catch event was not woken (B1 not requested)", bpmn.DoWithResults(map[string]any{"again": true}))
 		if problem == "" && !col.WaitUntil(tmoStep, func(l []Ev) bool { return countEv(l, "visit", "C1") >= 2 }) {
 			problem = "the token did not come back to the catch event"
 		}
-		if problem == "" {
-			time.Sleep(time.Duration(r%4) * 2 * time.Millisecond)
+		if problem == "" && settled {
+			time.Sleep(150 * time.Millisecond)
 		}
 		step("A0", "A0 was not requested")
 		step("B1", "second throw: the catch event was not woken again (B1 not requested a second time)", bpmn.DoWithResults(map[string]any{"again": false}))
@@ -494,7 +507,11 @@ func c18LoopedCatch(env *Env, rep *Report, pad, rounds int) {
 			cc()
 		}
 		if problem != "" {
-			rep.Violate("C18-message-flow", cs, problem+"; log: "+logString(col.Log()))
+			key := "C18-message-flow"
+			if !settled && strings.Contains(problem, "the catch event was not woken") {
+				key = "C18-wake-lost-before-registration"
+			}
+			rep.Violate(key, cs, problem+"; log: "+tailStr(logString(col.Log()), 1500))
 		}
 		cancel()
 	}
